@@ -515,7 +515,8 @@ def oracle(line, out, mode):
         return "%d steps printed for %d operations" % (len(steps), len(ops))
     final = steps[-1][1] if steps else b0
     # always: the verdict on the final bundle follows the rule list, and a well-formed final bundle round-trips
-    if (verdict == "VALID") != valid(final):
+    dont_care = (final["p"]["flags"] & 0xE218) == 0xE218 or any((c["flags"] & 0xF0) == 0xF0 for c in final["cs"])   # C07: free
+    if not dont_care and (verdict == "VALID") != valid(final):
         return "FINAL %s but the rule list says %s" % (verdict, "valid" if valid(final) else "invalid")
     if wf(final) and rt != "T":
         return "final bundle does not round-trip through CBOR"
